@@ -58,3 +58,28 @@ PROPS = {
     },
 }
 STATIC = set()
+
+# ------------------------------------------------------------------------------------------ C02
+def gen_c02(tier, seed):
+    rng = random.Random(seed * 1000003 + 2)
+    cases = []
+    if tier == "quick":
+        cases += list(G.gen_ranges(rng, [G.CORE_LAYOUT], [("heap", "clone")], [0, 1, 2, 3, 4], "rg"))
+        cases += list(G.gen_ranges(rng, [G.CORE_LAYOUT], [("stack:48", "clone"), ("reloc", "clone"), ("heap", "none"), ("stackn:2:48", "clone")],
+                                   [0, 2, 3, 6], "rgk", strings_cap=6))
+        others = [l for l in G.LAYOUTS if l != G.CORE_LAYOUT]
+        cases += list(G.gen_ranges(rng, others, [("heap", "clone")], [0, 3], "rgl", strings_cap=5))
+    else:
+        cases += list(G.gen_ranges(rng, G.LAYOUTS, [("heap", "clone"), ("reloc", "clone"), ("stack:512", "clone")], [0, 1, 2, 3, 4, 5], "rg", strings_cap=40))
+        cases += list(G.gen_ranges(rng, [G.CORE_LAYOUT], G.CORE_KINDS[:-1] + G.EXTRA_KINDS, [0, 1, 2, 3, 4, 6], "rgk", strings_cap=12))
+    return cases
+
+PROPS["C02"] = {
+    "gen": gen_c02, "proj": {}, "kinds": {"vec-semantics"},
+    "release_subset": lambda c: any("18446744073709551615" in l or "18446744073709551614" in l for l in c.lines),
+    "rule": "a case builds a vector (len 0..L), runs one drain or splice instance (every valid (start,end) in every "
+            "RangeBounds spelling, invalid ranges at the boundary and at usize::MAX, every next/next_back interleaving "
+            "up to range length + 1 with a sink per item, erased and typed, replacement lists of 0..3 values from every "
+            "source kind) and then iterates the result; distinct = distinct script text",
+    "design_ref": "DESIGN.md section 7, C02",
+}
